@@ -15,6 +15,11 @@
       dec_quo and the quotient of dec_quorem respect it up to the sign of an
       infinity (x / -0 vs x / 0; both are reported as the same error);
       dec_cmp, dec_compare and decimal_to_int give identical results.
+      sum/avg accumulate EXACTLY and round once: the unrounded totals are
+      related by [ueq] (same value, no coefficient bound); [exact_add_ueq],
+      [round_once_rel] (via fit_value) and [dec_quo_ueq] (dec_quo depends only
+      on the value of an unbounded dividend: [quo_scale_u], whose hard case is
+      the sticky-digit rounding lemma [fit_sticky]).
    B. values.  [vrel]: equal up to the representation of numbers; [num_rel];
       uniform classification ([is_number_rel], [is_true_rel], [type_name_rel],
       [to_number_rel], [to_float_rel]), integer arguments ([to_int_rel],
@@ -250,7 +255,8 @@ Qed.
 
 Lemma parse_dec_wf : forall t d, parse_dec t = Some d -> dec_wf d.
 Proof.
-  intros t d. rewrite parse_dec_alt. destruct t as [|b r]; [discriminate|].
+  intros t0 d. unfold parse_dec. destruct (strip_us false t0) as [t|]; [|discriminate].
+  rewrite parse_dec_alt. destruct t as [|b r]; [discriminate|].
   destruct (b =? 43); [destruct r; [discriminate|apply parse_dec_body_wf]|].
   destruct (b =? 45); [destruct r; [discriminate|apply parse_dec_body_wf]|].
   apply parse_dec_body_wf.
@@ -1046,10 +1052,25 @@ Proof.
   apply digits_le34. unfold P34. assert (9223372036854775808 < 10 ^ 34) by reflexivity. lia.
 Qed.
 
+Lemma parse_int64_no_us : forall t i, parse_int64 t = Some i -> parse_dec t = parse_dec_plain t.
+Proof.
+  intros t i H. unfold parse_dec. rewrite strip_us_id; [reflexivity|].
+  rewrite parse_int64_alt in H. fold not_us.
+  destruct t as [|b r]; [reflexivity|].
+  destruct (Z.eqb_spec b 45) as [->|N45].
+  - destruct (take_digits r 0 0) as [[v n] rest] eqn:T. destruct rest; [|discriminate].
+    simpl. eapply take_digits_no_us; [exact T|reflexivity].
+  - destruct (Z.eqb_spec b 43) as [->|N43].
+    + destruct (take_digits r 0 0) as [[v n] rest] eqn:T. destruct rest; [|discriminate].
+      simpl. eapply take_digits_no_us; [exact T|reflexivity].
+    + destruct (take_digits (b :: r) 0 0) as [[v n] rest] eqn:T. destruct rest; [|discriminate].
+      eapply take_digits_no_us; [exact T|reflexivity].
+Qed.
+
 Lemma parse_int64_dec : forall t i, parse_int64 t = Some i ->
   exists n v, parse_dec t = Some (DFin n v 0) /\ 0 <= v < P34 /\ sgn n v = i /\ in_int i = true.
 Proof.
-  intros t i. rewrite parse_int64_alt, parse_dec_alt.
+  intros t i Hpi. rewrite (parse_int64_no_us t i Hpi). revert Hpi. rewrite parse_int64_alt, parse_dec_alt.
   assert (HB : 9223372036854775808 < P34) by reflexivity.
   destruct t as [|b r]; [simpl; discriminate|].
   destruct (Z.eqb_spec b 45) as [->|N45].
@@ -1549,24 +1570,254 @@ Proof.
   rewrite <- (drel_is_zero d d0 D). destruct (is_zero d); apply vdec_rel; [exact D|apply dec_neg_rel; exact D].
 Qed.
 
-Lemma sum_loop_rel : forall l l', Forall2 vrel l l' -> forall r r', drel r r' ->
-  orel drel (sum_loop l r) (sum_loop l' r').
+(* ---- sum / avg: exact accumulation, one rounding ---- *)
+
+(* unrounded finite decimals (any coefficient size) of the same value *)
+Definition ueq (x y : dec) : Prop :=
+  match x, y with
+  | DFin n c e, DFin n' c' e' => 0 <= c /\ 0 <= c' /\ dec_equal x y = true
+  | _, _ => False
+  end.
+
+Lemma drel_is_fin : forall d d', drel d d' -> is_fin d = is_fin d'.
+Proof. intros d d' H. dcases H; reflexivity. Qed.
+
+(* exact_add is exact: the value of the result is the sum of the values *)
+Lemma exact_add_ueq : forall t t' d d', ueq t t' -> drel d d' -> is_fin d = true ->
+  ueq (exact_add t d) (exact_add t' d').
 Proof.
-  intros l l' H. induction H as [|v v' q q' Hv Hq IH]; intros r r' Hr; cbn [sum_loop].
-  - constructor. exact Hr.
+  intros t t' d d' Ht Hd F.
+  destruct t as [n1 c1 e1| |]; try contradiction. destruct t' as [n1' c1' e1'| |]; try contradiction.
+  destruct Ht as (P1 & P1' & E1).
+  dcases Hd; [|destruct d; try discriminate; nofin].
+  unfold exact_add.
+  set (m := Z.min (Z.min e1 e) (Z.min e1' e')).
+  pose proof (scaled_add m n1 c1 e1 n c e ltac:(lia) ltac:(lia)) as H.
+  pose proof (scaled_add m n1' c1' e1' n' c' e' ltac:(lia) ltac:(lia)) as H'.
+  apply (dec_equal_any_m m) in E1; try lia. apply (dec_equal_any_m m) in E; try lia.
+  unfold align in *. cbv beta iota zeta in *. cbn [ueq].
+  split; [apply Z.abs_nonneg|]. split; [apply Z.abs_nonneg|].
+  apply (dec_equal_scaled m); lia.
+Qed.
+
+Definition srel (r r' : dec * dec * bool) : Prop :=
+  ueq (fst (fst r)) (fst (fst r')) /\ drel (snd (fst r)) (snd (fst r')) /\ snd r = snd r'.
+
+Lemma sum_loop_rel : forall l l', Forall2 vrel l l' -> forall t t' s s' f, ueq t t' -> drel s s' ->
+  orel srel (sum_loop l t s f) (sum_loop l' t' s' f).
+Proof.
+  intros l l' H. induction H as [|v v' q q' Hv Hq IH]; intros t t' s s' f Ht Hs; cbn [sum_loop].
+  - constructor. split; [exact Ht|split; [exact Hs|reflexivity]].
   - pose proof (to_decimal_rel v v' Hv) as D. unfold odrel in D.
-    destruct (to_decimal v), (to_decimal v'); try contradiction; try constructor.
-    apply IH. apply dec_add_rel; assumption.
+    destruct (to_decimal v) as [d|], (to_decimal v') as [d'|]; try contradiction; try constructor.
+    rewrite <- (drel_is_fin d d' D).
+    destruct (f && is_fin d) eqn:B.
+    + apply IH; [|exact Hs]. apply exact_add_ueq; try assumption.
+      apply andb_true_iff in B. apply B.
+    + apply IH; [exact Ht|]. apply dec_add_rel; assumption.
 Qed.
 
 Lemma drel_zero0 : drel dec_zero dec_zero.
 Proof. apply drel_refl. unfold dec_zero. cbn [dec_wf]. pose proof P34_pos. lia. Qed.
 
+Lemma ueq_zero0 : ueq dec_zero dec_zero.
+Proof. unfold dec_zero. cbn [ueq]. repeat split; try lia. Qed.
+
+(* one rounding of equal exact values gives equal values *)
+Lemma round_once_rel : forall t t', ueq t t' -> drel (round_once t) (round_once t').
+Proof.
+  intros [n c e| |] [n' c' e'| |] H; try contradiction. destruct H as (P & P' & E).
+  cbn [round_once]. split; [apply fit_wf; exact P|]. split; [apply fit_wf; exact P'|].
+  apply (dec_equal_any_m (Z.min e e')) in E; [|lia|lia].
+  apply (fit_value (Z.min e e')); first [lia|exact E].
+Qed.
+
 Lemma sum_rel : forall v v', vrel v v' -> orel vrel (sum v) (sum v').
 Proof.
   intros v v' H. destruct H; try constructor. cbn [sum].
-  eapply orel_bind; [apply sum_loop_rel; [exact H|apply drel_zero0]|].
-  intros a a' Ha. apply trap_rel. left; exact Ha.
+  eapply orel_bind; [apply sum_loop_rel; [exact H|apply ueq_zero0|apply drel_zero0]|].
+  intros [[t s] f] [[t' s'] f'] (Ht & Hs & Hf). cbn [fst snd] in *. subst f'.
+  apply trap_rel. left. destruct f; [apply round_once_rel; exact Ht|exact Hs].
+Qed.
+
+(* ---- the quotient of an unrounded dividend (avg) ---- *)
+Lemma digits_gt : forall c p, 0 <= p -> 10 ^ p <= c -> p < digits c.
+Proof.
+  intros c p Hp H. pose proof (pow10_gt0 p Hp). pose proof (digits_spec c ltac:(lia)) as [_ B].
+  pose proof (digits_pos c ltac:(lia)).
+  apply (Z.pow_lt_mono_r_iff 10); lia.
+Qed.
+
+(* a nonzero tail below a coefficient that ends in 0 rounds like a final digit 1 *)
+Lemma drop_sticky : forall Q h m u, 0 <= Q -> Q mod 10 = 0 -> 0 <= h -> 0 <= m -> 0 < u < 10 * 10 ^ m ->
+  drop_digits (Q * 10 ^ m + u) (h + 2 + m) = drop_digits (Q + 1) (h + 2).
+Proof.
+  intros Q h m u HQ HM Hh Hm Hu. unfold drop_digits, pow10. cbv zeta.
+  replace (h + 2 + m - 1) with (h + 1 + m) by lia. replace (h + 2 - 1) with (h + 1) by lia.
+  rewrite !Z.pow_add_r by lia. change (10 ^ 2) with 100. change (10 ^ 1) with 10.
+  pose proof (pow10_gt0 h Hh) as H3p. pose proof (pow10_gt0 m Hm) as HTp.
+  set (H3 := 10 ^ h) in *. set (T := 10 ^ m) in *.
+  pose proof (Z.div_mod Q 10 ltac:(lia)) as EQ10. rewrite HM in EQ10.
+  pose proof (Z.div_mod Q (H3 * 100) ltac:(lia)) as EQ.
+  pose proof (Z.mod_pos_bound Q (H3 * 100) ltac:(lia)) as HB.
+  set (q := Q / 10) in *. set (A := Q / (H3 * 100)) in *. set (B := Q mod (H3 * 100)) in *.
+  clearbody q A B.
+  set (b := q - 10 * (H3 * A)).
+  assert (EB : B = 10 * b) by (unfold b; lia).
+  assert (Hb : 0 <= b /\ b + 1 <= 10 * H3) by lia.
+  assert (E1 : (Q + 1) / (H3 * 100) = A).
+  { symmetry. apply (Z.div_unique_pos _ _ _ (B + 1)); lia. }
+  assert (E2 : (Q + 1) mod (H3 * 100) = B + 1).
+  { symmetry. apply (Z.mod_unique_pos _ _ A); lia. }
+  assert (HbT : 0 <= b * T) by (apply Z.mul_nonneg_nonneg; lia).
+  assert (HbT' : (b + 1) * T <= 10 * H3 * T) by (apply Z.mul_le_mono_nonneg_r; lia).
+  assert (E3 : (Q * T + u) / (H3 * 100 * T) = A).
+  { symmetry. apply (Z.div_unique_pos _ _ _ (B * T + u)); [|rewrite EQ; ring].
+    rewrite EB. lia. }
+  assert (E4 : (Q * T + u) mod (H3 * 100 * T) = B * T + u).
+  { symmetry. apply (Z.mod_unique_pos _ _ A); [|rewrite EQ; ring]. rewrite EB. lia. }
+  rewrite E1, E2, E3, E4. rewrite EB.
+  destruct (Z_lt_ge_dec b (5 * H3)) as [C|C].
+  - assert ((b + 1) * T <= 5 * H3 * T) by (apply Z.mul_le_mono_nonneg_r; lia).
+    destruct (Z.gtb_spec (10 * b * T + u) (5 * (H3 * 10 * T))); [lia|].
+    destruct (Z.gtb_spec (10 * b + 1) (5 * (H3 * 10))); [lia|].
+    destruct (Z.eqb_spec (10 * b * T + u) (5 * (H3 * 10 * T))); [lia|].
+    destruct (Z.eqb_spec (10 * b + 1) (5 * (H3 * 10))); [lia|]. reflexivity.
+  - assert (5 * H3 * T <= b * T) by (apply Z.mul_le_mono_nonneg_r; lia).
+    destruct (Z.gtb_spec (10 * b * T + u) (5 * (H3 * 10 * T))); [|lia].
+    destruct (Z.gtb_spec (10 * b + 1) (5 * (H3 * 10))); [|lia]. reflexivity.
+Qed.
+
+Lemma round_coef_sticky : forall Q F m u, 10 ^ 36 <= Q -> Q mod 10 = 0 -> 0 <= m -> 0 < u < 10 * 10 ^ m ->
+  round_coef (Q * 10 ^ m + u) (F - m) = round_coef (Q + 1) F.
+Proof.
+  intros Q F m u HQ HM Hm Hu.
+  assert (Q0 : 0 < Q) by (assert (0 < 10 ^ 36) by reflexivity; lia).
+  pose proof (digits_gt Q 36 ltac:(lia) HQ) as Hd.
+  pose proof (digits_spec Q Q0) as [DA DB].
+  pose proof (pow10_gt0 m Hm) as HTp.
+  pose proof (Z.div_mod Q 10 ltac:(lia)) as EQ10. rewrite HM in EQ10.
+  set (d := digits Q) in *.
+  assert (P10 : 10 ^ d = 10 * 10 ^ (d - 1)).
+  { replace d with (Z.succ (d - 1)) at 1 by lia. apply Z.pow_succ_r. lia. }
+  assert (D1 : digits (Q + 1) = d) by (apply digits_unique; lia).
+  assert (D2 : digits (Q * 10 ^ m + u) = d + m).
+  { assert (10 ^ (d - 1) * 10 ^ m <= Q * 10 ^ m) by (apply Z.mul_le_mono_nonneg_r; lia).
+    assert ((Q + 10) * 10 ^ m <= 10 ^ d * 10 ^ m) by (apply Z.mul_le_mono_nonneg_r; lia).
+    apply digits_unique; [nia|].
+    replace (d + m - 1) with ((d - 1) + m) by lia. rewrite !Z.pow_add_r by lia. lia. }
+  unfold round_coef. cbv zeta. rewrite D1, D2. unfold prec34.
+  destruct (Z.leb_spec (d + m) 34); [lia|]. destruct (Z.leb_spec d 34); [lia|].
+  replace (d + m - 34) with ((d - 36) + 2 + m) by lia. replace (d - 34) with ((d - 36) + 2) by lia.
+  rewrite drop_sticky by lia.
+  destruct (_ >? 34); f_equal; lia.
+Qed.
+
+Lemma fit_sticky : forall n Q F m u, 10 ^ 36 <= Q -> Q mod 10 = 0 -> 0 <= m -> 0 < u < 10 * 10 ^ m ->
+  fit n (Q * 10 ^ m + u) (F - m) = fit n (Q + 1) F.
+Proof. intros. rewrite !fit_unfold. rewrite round_coef_sticky by assumption. reflexivity. Qed.
+
+(* once the quotient has more than 36 digits, more dividend digits do not change the rounded result *)
+Lemma quo_sticky : forall n N c2 E i, 0 < c2 -> c2 * 10 ^ 36 <= N -> 0 <= i ->
+  deq (if (N * 10 ^ i) mod c2 =? 0 then fit n (N * 10 ^ i / c2) (E - i)
+       else fit n (N * 10 ^ i / c2 * 10 + 1) (E - i - 1))
+      (if N mod c2 =? 0 then fit n (N / c2) E else fit n (N / c2 * 10 + 1) (E - 1)).
+Proof.
+  intros n N c2 E i H2 HN Hi.
+  destruct (Z.eq_dec i 0) as [->|Ni].
+  { change (10 ^ 0) with 1. rewrite Z.mul_1_r, Z.sub_0_r. left; reflexivity. }
+  pose proof (Z.div_mod N c2 ltac:(lia)) as EQ. pose proof (Z.mod_pos_bound N c2 H2) as HR.
+  assert (Hq : 10 ^ 36 <= N / c2) by (apply Z.div_le_lower_bound; lia).
+  assert (P36 : 0 < 10 ^ 36) by reflexivity.
+  set (q0 := N / c2) in *. set (r0 := N mod c2) in *. clearbody q0 r0.
+  pose proof (pow10_gt0 i Hi) as HTp.
+  assert (PT : 10 ^ i = 10 * 10 ^ (i - 1)).
+  { replace i with (Z.succ (i - 1)) at 1 by lia. apply Z.pow_succ_r. lia. }
+  pose proof (pow10_gt0 (i - 1) ltac:(lia)) as HT1.
+  set (T := 10 ^ i) in *.
+  assert (EN : N * T = q0 * T * c2 + r0 * T) by (rewrite EQ; ring).
+  assert (Eq1 : N * T / c2 = q0 * T + r0 * T / c2) by (rewrite EN; apply Z.div_add_l; lia).
+  assert (Er1 : (N * T) mod c2 = (r0 * T) mod c2).
+  { rewrite EN, Z.add_comm. apply Z.mod_add. lia. }
+  rewrite Eq1, Er1. clear Eq1 Er1.
+  pose proof (Z.div_mod (r0 * T) c2 ltac:(lia)) as EQ'. pose proof (Z.mod_pos_bound (r0 * T) c2 H2) as HR'.
+  assert (Ht : 0 <= r0 * T / c2 < T).
+  { split; [apply Z.div_pos; nia|]. apply Z.div_lt_upper_bound; nia. }
+  set (t := r0 * T / c2) in *. set (r1 := (r0 * T) mod c2) in *. clearbody t r1.
+  destruct (Z.eqb_spec r0 0) as [R0|R0].
+  - assert (r1 = 0) by nia. assert (t = 0) by nia. subst r1 t.
+    cbn [Z.eqb]. rewrite Z.add_0_r. unfold T.
+    replace i with (Z.of_nat (Z.to_nat i)) by (apply Z2Nat.id; lia).
+    apply fit_scale. lia.
+  - left. destruct (Z.eqb_spec r1 0) as [R1|R1].
+    + assert (0 < t) by nia.
+      replace (q0 * T + t) with (10 * q0 * 10 ^ (i - 1) + t) by (rewrite PT; ring).
+      replace (E - i) with (E - 1 - (i - 1)) by lia.
+      replace (q0 * 10 + 1) with (10 * q0 + 1) by ring.
+      apply fit_sticky; try lia.
+      rewrite Z.mul_comm. apply Z.mod_mul. lia.
+    + replace ((q0 * T + t) * 10 + 1) with (10 * q0 * 10 ^ i + (10 * t + 1)) by (fold T; ring).
+      replace (E - i - 1) with (E - 1 - i) by lia.
+      replace (q0 * 10 + 1) with (10 * q0 + 1) by ring.
+      apply fit_sticky; try (fold T; lia).
+      rewrite Z.mul_comm. apply Z.mod_mul. lia.
+Qed.
+
+Lemma quo_scale_u : forall n1 c1 e1 n2 c2 e2 j, 0 < c1 -> 0 < c2 -> 0 <= j ->
+  deq (dec_quo (DFin n1 (c1 * 10 ^ j) (e1 - j)) (DFin n2 c2 e2)) (dec_quo (DFin n1 c1 e1) (DFin n2 c2 e2)).
+Proof.
+  intros n1 c1 e1 n2 c2 e2 j H1 H2 Hj. unfold dec_quo.
+  pose proof (pow10_gt0 j Hj) as Hp.
+  destruct (Z.eqb_spec c2 0); [lia|]. destruct (Z.eqb_spec c1 0); [lia|].
+  destruct (Z.eqb_spec (c1 * 10 ^ j) 0); [nia|].
+  cbv zeta. rewrite digits_scale by lia. unfold prec34, pow10.
+  set (D := 34 + 3 + digits c2 - digits c1).
+  replace (34 + 3 + digits c2 - (digits c1 + j)) with (D - j) by (unfold D; lia).
+  destruct (Z_le_gt_dec j D) as [L|G].
+  - rewrite (Z.max_r 0 (D - j)), (Z.max_r 0 D) by lia.
+    replace (c1 * 10 ^ j * 10 ^ (D - j)) with (c1 * 10 ^ D).
+    2:{ rewrite <- Z.mul_assoc, <- Z.pow_add_r by lia. do 2 f_equal. lia. }
+    replace (e1 - j - e2 - (D - j)) with (e1 - e2 - D) by lia. left; reflexivity.
+  - rewrite (Z.max_l 0 (D - j)) by lia. change (10 ^ 0) with 1. rewrite Z.mul_1_r.
+    set (k0 := Z.max 0 D). set (i := j - k0).
+    assert (Hi : 0 <= i) by (unfold i, k0; lia).
+    replace (c1 * 10 ^ j) with (c1 * 10 ^ k0 * 10 ^ i).
+    2:{ rewrite <- Z.mul_assoc, <- Z.pow_add_r by (unfold k0; lia). do 2 f_equal. unfold i; lia. }
+    replace (e1 - j - e2 - 0) with (e1 - e2 - k0 - i) by (unfold i; lia).
+    apply quo_sticky; try lia.
+    pose proof (digits_pos c1 H1). pose proof (digits_pos c2 H2).
+    pose proof (digits_spec c2 H2) as [_ B2].
+    assert (Hn : 0 < c1 * 10 ^ k0) by (apply Z.mul_pos_pos; [lia|apply pow10_gt0; unfold k0; lia]).
+    pose proof (digits_spec (c1 * 10 ^ k0) Hn) as [A1 _].
+    rewrite digits_scale in A1 by (unfold k0; lia).
+    assert (10 ^ (digits c2 + 36) <= 10 ^ (digits c1 + k0 - 1)) by (apply Z.pow_le_mono_r; unfold k0, D; lia).
+    rewrite Z.pow_add_r in H3 by lia.
+    assert (0 < 10 ^ 36) by reflexivity. nia.
+Qed.
+
+Lemma dec_quo_wf_u : forall n1 c1 e1 n2 c2 e2, 0 <= c1 -> 0 < c2 ->
+  dec_wf (dec_quo (DFin n1 c1 e1) (DFin n2 c2 e2)).
+Proof.
+  intros n1 c1 e1 n2 c2 e2 H1 H2. unfold dec_quo. pose proof P34_pos as HP.
+  destruct (Z.eqb_spec c2 0); [lia|].
+  destruct (Z.eqb_spec c1 0); [cbn [dec_wf]; lia|]. cbv zeta.
+  assert (0 <= c1 * pow10 (Z.max 0 (prec34 + 3 + digits c2 - digits c1)) / c2).
+  { apply Z.div_pos; [|lia]. apply Z.mul_nonneg_nonneg; [lia|]. apply Z.pow_nonneg; lia. }
+  destruct (_ =? 0); apply fit_wf; lia.
+Qed.
+
+(* dec_quo depends on the VALUE of an unrounded dividend only *)
+Lemma dec_quo_ueq : forall t t' n2 c2 e2, ueq t t' -> 0 < c2 ->
+  drel (dec_quo t (DFin n2 c2 e2)) (dec_quo t' (DFin n2 c2 e2)).
+Proof.
+  intros [n c e| |] [n' c' e'| |] n2 c2 e2 H H2; try contradiction. destruct H as (P & P' & E).
+  split; [apply dec_quo_wf_u; assumption|]. split; [apply dec_quo_wf_u; assumption|].
+  destruct (fin_equal_inv _ _ _ _ _ _ P P' E) as [[-> ->]|(Q & Q' & <- & [[L ->]|[L ->]])].
+  - unfold dec_quo. destruct (Z.eqb_spec c2 0); [lia|]. cbn [Z.eqb]. apply deq_zero.
+  - pose proof (quo_scale_u n c' e' n2 c2 e2 (e' - e) Q' H2 ltac:(lia)) as K.
+    replace (e' - (e' - e)) with e in K by lia. exact K.
+  - apply deq_sym. pose proof (quo_scale_u n c e n2 c2 e2 (e - e') Q H2 ltac:(lia)) as K.
+    replace (e - (e - e')) with e' in K by lia. exact K.
 Qed.
 
 Lemma avg_rel : forall v v', vrel v v' -> orel vrel (avg v) (avg v').
@@ -1574,8 +1825,10 @@ Proof.
   intros v v' H. destruct H; try constructor.
   destruct H as [|x x' l l' Hx Hl]; [constructor; constructor|].
   cbn [avg]. rewrite <- (Forall2_length' _ _ _ (Forall2_cons _ _ Hx Hl)).
-  eapply orel_bind; [apply sum_loop_rel; [constructor; assumption|apply drel_zero0]|].
-  intros a a' Ha. apply trap_rel. apply dec_quo_rel; [exact Ha|]. apply drel_refl. apply dec_of_Z_wf.
+  eapply orel_bind; [apply sum_loop_rel; [constructor; assumption|apply ueq_zero0|apply drel_zero0]|].
+  intros [[t s] f] [[t' s'] f'] (Ht & Hs & Hf). cbn [fst snd] in *. subst f'.
+  apply trap_rel. left. destruct f; [|exact Hs].
+  apply dec_quo_ueq; [exact Ht|]. cbn [length]. lia.
 Qed.
 
 Lemma contains_rel : forall x x' y y', vrel x x' -> vrel y y' -> orel vrel (contains x y) (contains x' y').
